@@ -161,7 +161,7 @@ def key_of(line, impl, model):
 def run_path(ctx):
     exe = vlib.go_build("./zz_verif/amppath")
     lines, kinds = gen_path(ctx)
-    ctx.correspond(exe, lines, kinds, label="amp-path", prop=prop, key_of=key_of)
+    ctx.correspond(exe, lines, kinds, label="amp-path", prop=prop, key_of=key_of, crosscheck=25)
     # phase 2: the implementation's real encoder output (random padding) through both decoders
     rng = ctx.rng
     datas = [rand_data(rng) for _ in range(200 if ctx.tier == "quick" else 2000)]
@@ -170,7 +170,7 @@ def run_path(ctx):
         ctx.not_shown("amp-path: encraw phase failed: " + err[-300:])
         return
     l2 = ["%s dec %s %s" % (AREA, r, hx(d)) for r, d in zip(raw, datas)]
-    ctx.correspond(exe, l2, ["path-dec-of-real-encoding"] * len(l2), label="amp-path-real-encoding", prop=prop, key_of=key_of, crosscheck=10)
+    ctx.correspond(exe, l2, ["path-dec-of-real-encoding"] * len(l2), label="amp-path-real-encoding", prop=prop, key_of=key_of, crosscheck=4)
 
 
 # ------------------------------------------------------------------ cache URL cases
@@ -410,7 +410,7 @@ def run_cache(ctx):
     rng = ctx.rng
     thorough = ctx.tier == "thorough"
     ll, lk = gen_libmodels(ctx)
-    ctx.correspond(exe, ll, lk, label="amp-cache-library-models", prop=prop_lib, key_of=lambda *a: "library-model")
+    ctx.correspond(exe, ll, lk, label="amp-cache-library-models", prop=prop_lib, key_of=lambda *a: "library-model", crosscheck=20)
     cases, kinds = [], []
     # every domain over a small alphabet (ASCII letter, hyphen, dot, 2-byte and 3-byte characters)
     for n in range(0, 6 if thorough else 5):
@@ -450,7 +450,196 @@ def run_cache(ctx):
         pf, cf, ou, sha = pa[i].split(" ")
         lines.append("%s cacheurl %s %s %s %s %s %s %s %s %s" % (AREA, sx(p), sx(c), sx(ct), pf, cf, ou, pres[j], oas[j], sha))
         ks.append(kinds[i])
-    ctx.correspond(exe, lines, ks, label="amp-cache-url", prop=prop_cache, key_of=key_cache)
+    ctx.correspond(exe, lines, ks, label="amp-cache-url", prop=prop_cache, key_of=key_cache, crosscheck=20)
+
+
+# ------------------------------------------------------------------ client rendezvous cases
+
+LIMIT = 100000
+DRV_ARGS = ("-test.run", "^TestVerifC11Driver$")
+
+
+def rand_broker(rng):
+    scheme = rng.choice(["https", "https", "http"])
+    host = rng.choice(["snowflake-broker.torproject.net", "snowflake-broker.azureedge.net", "broker.example", "en-us.example.com",
+                       "b\u00fccher.example", "\u00e9-c.com", "\u00e9a-b.com", "xn--bcher-kva.example", "192.0.2.7", "a" * 63 + ".example",
+                       ("a" * 20 + ".") * 4 + "example", "localhost"])
+    port = rng.choice(["", "", "", ":443", ":80", ":8080"])
+    user = rng.choice([""] * 9 + ["u@"])
+    path = rng.choice(["", "/", "/", "/", "/x", "/x/", "/x/y/", "/a.b/c/", "/amp/client/", "/client", "/snowflake-broker.torproject.net/"])
+    return scheme + "://" + user + host + port + path
+
+
+def rand_front(rng):
+    return rng.choice(["", "", "front.example", "cdn.sstatic.net", "www.google.com:443", "fr\u00f6nt.example", "snowflake-broker.torproject.net.front.example"])
+
+
+def rand_cache_rdv(rng):
+    return rng.choice([None, None, "https://cdn.ampproject.org/", "https://cdn.ampproject.org/", "https://cdn.ampproject.org", "https://amp.cache:8443/p/",
+                       "http://amp.cache/p/q", "https://u:p@amp.cache/", "https://cdn.ampproject.org/?q=1", "https://cdn.ampproject.org/#f"])
+
+
+def rand_status(rng):
+    return rng.choice([200] * 6 + [201, 204, 206, 301, 302, 400, 403, 404, 500, 502, 503, 199, 0])
+
+
+def gen_rdv(ctx):
+    rng = ctx.rng
+    thorough = ctx.tier == "thorough"
+    https, amps = [], []
+    sizes = [0, 1, 2, 100, 1500, LIMIT - 1, LIMIT, LIMIT + 1, LIMIT + 2, 2 * LIMIT]
+    for broker in ["https://snowflake-broker.torproject.net/", "http://broker.example:8080/x/"]:
+        for front in ["", "front.example"]:
+            for n in sizes:
+                for st in (200, 404):
+                    https.append((broker, front, rand_data(rng), st, "g%d.%d" % (n, rng.randrange(256)), "http-limit-grid"))
+    for _ in range(400 if not thorough else 4000):
+        n = rng.choice([0, 1, 5, 50, 300, 2000] * 3 + [LIMIT - 1, LIMIT, LIMIT + 1])
+        resp = hx(rand_data(rng, n)) if n <= 300 else "g%d.%d" % (n, rng.randrange(256))
+        https.append((rand_broker(rng), rand_front(rng), rand_data(rng), rand_status(rng), resp, "http-random"))
+    for broker in ["https://snowflake-broker.torproject.net/", "http://broker.example:8080/x/"]:
+        for cache in [None, "https://cdn.ampproject.org/"]:
+            for front in ["", "front.example"]:
+                for bodysize in [0, LIMIT - 1, LIMIT, LIMIT + 1, 2 * LIMIT]:
+                    for st, loc in ((200, 0), (200, 1), (404, 0)):
+                        amps.append((broker, cache, front, rand_data(rng), st, loc, "g%d.%d" % (rng.choice([0, 1, 700]), rng.randrange(256)), bodysize, "amp-limit-grid"))
+                # a response whose armor alone exceeds / just fits the limit
+                for n in (60000, 70000, 80000, 150000):
+                    amps.append((broker, cache, front, rand_data(rng), 200, 0, "g%d.%d" % (n, rng.randrange(256)), 0, "amp-large-response"))
+    for _ in range(400 if not thorough else 4000):
+        n = rng.choice([0, 1, 5, 50, 300, 2000])
+        resp = hx(rand_data(rng, n)) if n <= 300 else "g%d.%d" % (n, rng.randrange(256))
+        amps.append((rand_broker(rng), rand_cache_rdv(rng), rand_front(rng), rand_data(rng), rand_status(rng), 1 if rng.random() < 0.1 else 0,
+                     resp, rng.choice([0, 0, 0, 5000, LIMIT, LIMIT + 1]), "amp-random"))
+    return https, amps
+
+
+def rdv_fields(impl):
+    """-> (reqfields or None/'many', res)"""
+    req, res = impl.split(" ", 1)
+    req = req[4:]
+    if req in ("none", "many"):
+        return req, res
+    return [None if t == "n" else bytes.fromhex(t[1:]) for t in req.split(",")], res
+
+
+def prop_rdv(line, impl, model):
+    a = line.split(" ")
+    op = a[1]
+    if impl.startswith("!panic") or impl == "!died":
+        return "implementation panicked/died: " + impl[:200]
+    if impl.startswith("!"):
+        return None
+    req, res = rdv_fields(impl)
+    if op == "http":
+        front, data, status, resp, bf = unhex(a[3]), bytes.fromhex(expand(a[4])), int(a[5]), a[6], a[7]
+        cache = None
+        loc = 0
+        served_len = len(expand(resp)) // 2
+    else:
+        front, data, status, loc, resp = unhex(a[4]), bytes.fromhex(expand(a[5])), int(a[6]), int(a[7]), a[8]
+        served_len = max(int(a[9]), int(a[10]))
+        bf = a[11]
+        cache = None if a[12] == "n" else [tok_opt(t) for t in a[12].split(",")]
+    b = [bytes.fromhex(t[1:]) for t in bf.split(",")]
+    bhost = b[2]
+    if req == "many":
+        return "more than one request for one exchange"
+    if req == "none":
+        if op == "http" or cache is None:
+            return "no request was made"
+        return None if res == "res=err" else "no request but a result"
+    method, scheme, urlhost, hosthdr, path, query, body = req
+    if op == "http":
+        if method != b"POST" or body != data:
+            return "HTTP rendezvous did not POST the poll as the body"
+        if not path.endswith(b"/client"):
+            return "HTTP rendezvous path does not end in /client"
+    else:
+        if method != b"GET" or body is not None:
+            return "AMP rendezvous is not a body-less GET"
+        # (an empty poll ends in "/", which path.Join in CacheURL removes by design, see cache_test.go;
+        #  the client never sends an empty poll: left to the model comparison)
+        if not (data == b"" and cache is not None) and not path.endswith(b"amp/client/0AAAAAAAAAAAA/" + b64u(data)):
+            return "AMP rendezvous path does not end in amp/client/0<padding>/<base64url(poll)>"
+    named = bhost if cache is None else None
+    if front != b"":
+        if urlhost != front:
+            return "front domain configured but the request connects to %r" % urlhost
+        if named is not None and hosthdr != named:
+            return "front domain configured but the Host header is %r, not the broker %r" % (hosthdr, named)
+        if cache is not None and not hosthdr.split(b":")[0].rstrip(b"]").endswith(b"." + cache[2]):
+            return "front domain configured but the Host header %r is not the AMP cache subdomain" % hosthdr
+    else:
+        if urlhost != hosthdr:
+            return "no front: URL host and Host header differ"
+        if named is not None and urlhost != named:
+            return "no front: request does not go to the broker host"
+    # response handling
+    must_err = status != 200 or served_len > LIMIT or loc == 1
+    if must_err and res != "res=err":
+        return "status %d / body of %d bytes%s was not reported as an error: %s" % (status, served_len, " / Location header" if loc else "", res)
+    if res.startswith("res=ok") and "same=1" not in res:
+        return "exchange returned data that is not the served response (truncated or altered): " + res
+    if not must_err and res == "res=err":
+        return "a 200 response of %d bytes (limit %d) was refused" % (served_len, LIMIT)
+    return None
+
+
+def key_rdv(line, impl, model):
+    a = line.split(" ")
+    try:
+        req, res = rdv_fields(impl)
+        mreq, mres = rdv_fields(model)
+        if res != mres:
+            return "rendezvous-response-limit"
+    except Exception:
+        pass
+    return "rendezvous-request-shape"
+
+
+def run_rdv(ctx):
+    import os
+    exe = vlib.go_test_build("./client/lib", name="client_lib_c11.test")
+    os.environ["VERIF_DRIVER"] = "c11"
+    ctx.trusted.append("recording http.RoundTripper in harness/overlay/client/lib/zz_verif_c11_test.go stands for the HTTP transport "
+                       "(connects to req.URL.Host, sends req.Host as the Host header)")
+    rc, lim, err = vlib.run_impl(exe, [AREA + " limit"], args=DRV_ARGS)
+    if rc != 0 or lim != [str(LIMIT)]:
+        ctx.not_shown("client readLimit is %r, the model and the property say %d" % (lim, LIMIT))
+    https, amps = gen_rdv(ctx)
+    # phase A: url.Parse accessors, ToUnicode/sha256 of the broker host; armored lengths
+    qa = ["%s bparse %s n" % (AREA, sx(b)) for b, _, _, _, _, _ in https]
+    qa += ["%s bparse %s %s" % (AREA, sx(t[0]), sx(t[1]) if t[1] else "n") for t in amps]
+    qa += ["%s armorlen %s" % (AREA, t[6]) for t in amps]
+    rc, ra, err = vlib.run_impl(exe, qa, args=DRV_ARGS)
+    if rc != 0 or len(ra) != len(qa):
+        ctx.not_shown("rendezvous: parse phase failed: " + err[-300:])
+        return
+    pa_http, pa_amp, alens = ra[:len(https)], ra[len(https):len(https) + len(amps)], ra[len(https) + len(amps):]
+    lines, kinds = [], []
+    for (b, f, d, st, resp, k), r in zip(https, pa_http):
+        if r.startswith("!"):
+            continue
+        lines.append("%s http %s %s %s %d %s %s" % (AREA, sx(b), sx(f), hx(d), st, resp, r.split(" ")[0]))
+        kinds.append(k)
+    # phase B/C: steps 2-4 by the model, ToASCII by the library
+    ous = [r.split(" ")[2] if not r.startswith("!") else "n" for r in pa_amp]
+    pres = vlib.run_model(["%s pre %s" % (AREA, ou if ou != "n" else "x") for ou in ous])
+    pres = [p if ou != "n" else "n" for p, ou in zip(pres, ous)]
+    rc, oas, err = vlib.run_impl(exe, ["%s toascii %s" % (AREA, p) for p in pres], args=DRV_ARGS)
+    if rc != 0 or len(oas) != len(amps):
+        ctx.not_shown("rendezvous: toascii phase failed: " + err[-300:])
+        return
+    for t, r, al, pre, oa in zip(amps, pa_amp, alens, pres, oas):
+        if r.startswith("!"):
+            continue
+        b, c, f, d, st, loc, resp, size, k = t
+        bf, cf, ou, sha = r.split(" ")
+        lines.append("%s amp %s %s %s %s %d %d %s %d %s %s %s %s %s %s %s" % (
+            AREA, sx(b), sx(c) if c else "n", sx(f), hx(d), st, loc, resp, size, al, bf, cf, ou, pre, oa, sha))
+        kinds.append(k)
+    ctx.correspond(exe, lines, kinds, label="client-rendezvous", prop=prop_rdv, key_of=key_rdv, impl_args=DRV_ARGS, crosscheck=12)
 
 
 def run(ctx):
@@ -459,6 +648,7 @@ def run(ctx):
                         "(which re-verifies them against the real libraries on the final case line)"]
     run_path(ctx)
     run_cache(ctx)
+    run_rdv(ctx)
 
 
 def replay(ctx, doc):
